@@ -98,8 +98,8 @@ HdrStore(m) == IF m.ing.b = 0 THEN m.stable ELSE Append(m.stable, m.ing.b)
 (* regtest the target is constant so time is what varies).                 *)
 (***************************************************************************)
 MedianTimePast(b) ==      \* median of the up to 11 timestamps ending with b
-  LET c == ChainTo(b)
-      n == IF Len(c) < 11 THEN Len(c) ELSE 11
+  LET c == LastOfChain(b, 11)
+      n == Len(c)
       ts == SortSeq([i \in 1..n |-> Time(c[Len(c) - n + i])], LAMBDA x, y : x < y)
   IN ts[(n \div 2) + 1]
 
